@@ -41,7 +41,7 @@ Section AnyImplementer.
 
   Lemma default_from_expr_strip e : default_from_expr F e = default_from_expr F (strip_groups e).
   Proof.
-    induction e as [i l | i g IH | i p | i es | i k]; try reflexivity.
+    induction e as [i l | i g IH | i p | i es | i k | i nl]; try reflexivity.
     cbn [strip_groups]. now rewrite default_from_expr_group.
   Qed.
 
@@ -67,18 +67,25 @@ Section AnyImplementer.
     strip_groups e = ELit j l -> default_from_expr F e = ws j (from_value F j l).
   Proof. intros H. rewrite default_from_expr_strip, H. reflexivity. Qed.
 
+  (** the negation of a numeric literal (what syn makes of `name = -1` before another item) is
+      the negative literal *)
+  Lemma route_expr_neg e j l :
+    strip_groups e = ENeg j l -> default_from_expr F e = ws j (from_value F j l).
+  Proof. intros H. rewrite default_from_expr_strip, H. reflexivity. Qed.
+
   Lemma route_expr_other e :
-    (forall j l, strip_groups e <> ELit j l) ->
+    (forall j l, strip_groups e <> ELit j l) -> (forall j l, strip_groups e <> ENeg j l) ->
     default_from_expr F e = Err (unexpected_expr_type (strip_groups e)).
   Proof.
-    intros H. rewrite default_from_expr_strip.
+    intros H H'. rewrite default_from_expr_strip.
     pose proof (strip_groups_not_group e) as G.
-    destruct (strip_groups e) as [j l | j g | j p | j es | j k] eqn:E; cbn [default_from_expr].
+    destruct (strip_groups e) as [j l | j g | j p | j es | j k | j nl] eqn:E; cbn [default_from_expr].
     - exfalso. eapply H; eauto.
     - exfalso. eapply G; eauto.
     - reflexivity.
     - reflexivity.
     - reflexivity.
+    - exfalso. eapply H'; eauto.
   Qed.
 
   Lemma route_value_bool i b : default_from_value F i (LBool b) = ws i (from_bool F b).
